@@ -36,6 +36,8 @@ type c13Cue struct {
 	Style  string   `json:"style,omitempty"`
 	Region string   `json:"region,omitempty"`
 	Runs   []c13Run `json:"runs"`
+	// Bare: no cue-level inline attributes (styling, if any, sits on the runs only)
+	Bare bool `json:"bare,omitempty"`
 }
 
 type c13Case struct {
@@ -46,6 +48,9 @@ type c13Case struct {
 	Source string `json:"source"`
 	// RemoveStyling: check RemoveStyling instead of Optimize
 	RemoveStyling bool `json:"remove_styling"`
+	// list built without the constructor: one or both definition maps are nil (Source "" only)
+	NilStyles  bool `json:"nil_styles_map,omitempty"`
+	NilRegions bool `json:"nil_regions_map,omitempty"`
 }
 
 func init() { register("c13", checkC13) }
@@ -120,7 +125,30 @@ func buildC13(c c13Case) (*astisub.Subtitles, string) {
 		}
 		return s, ""
 	}
+	if c.Source == "srt" {
+		// SubRip knows no definitions: all styling sits on the runs
+		var sb strings.Builder
+		for i, cu := range c.Cues {
+			fmt.Fprintf(&sb, "%d\n%s --> %s\n", i+1, strings.Replace(msClock(cu.Start).String(), ".", ",", 1), strings.Replace(msClock(cu.End).String(), ".", ",", 1))
+			for k, r := range cu.Runs {
+				tag := []string{"b", "i", "u"}[(i+k)%3]
+				fmt.Fprintf(&sb, "<%s>%s</%s>", tag, r.Text, tag)
+			}
+			sb.WriteString("\n\n")
+		}
+		s, err := astisub.ReadFromSRT(strings.NewReader(sb.String()))
+		if err != nil {
+			return nil, "SRT reader rejected the generated document: " + err.Error()
+		}
+		return s, ""
+	}
 	s := astisub.NewSubtitles()
+	if c.NilStyles {
+		s.Styles = nil
+	}
+	if c.NilRegions {
+		s.Regions = nil
+	}
 	s.Metadata = &astisub.Metadata{Framerate: 25, STLDisplayStandardCode: "0"}
 	for _, st := range c.Styles {
 		col := "white"
@@ -140,6 +168,9 @@ func buildC13(c c13Case) (*astisub.Subtitles, string) {
 	}
 	for _, cu := range c.Cues {
 		it := &astisub.Item{StartAt: time.Duration(cu.Start) * time.Millisecond, EndAt: time.Duration(cu.End) * time.Millisecond, InlineStyle: &astisub.StyleAttributes{WebVTTAlign: "left"}}
+		if cu.Bare {
+			it.InlineStyle = nil
+		}
 		if cu.Style != "" {
 			it.Style = s.Styles[cu.Style]
 		}
@@ -441,8 +472,23 @@ func TestC13(t *testing.T) {
 	rids := []string{"r0", "r1", "r2"}
 	rapidCheck(t, "C13/graphs", tier(4000, 300000), func(rt *rapid.T) {
 		c := c13Case{}
-		c.Source = rapid.SampledFrom([]string{"", "", "ttml", "ttml", "ssa", "vtt"}).Draw(rt, "source")
+		c.Source = rapid.SampledFrom([]string{"", "", "", "ttml", "ttml", "ssa", "vtt", "srt"}).Draw(rt, "source")
 		ns := rapid.IntRange(0, 6).Draw(rt, "nstyles")
+		nr := rapid.IntRange(0, 3).Draw(rt, "nregions")
+		if c.Source == "" {
+			// a list put together by hand may lack either map
+			switch rapid.IntRange(0, 9).Draw(rt, "nilmaps") {
+			case 0:
+				c.NilStyles, ns = true, 0
+			case 1:
+				c.NilRegions, nr = true, 0
+			case 2:
+				c.NilStyles, c.NilRegions, ns, nr = true, true, 0, 0
+			}
+		}
+		if c.Source == "srt" {
+			ns, nr = 0, 0
+		}
 		for i := 0; i < ns; i++ {
 			st := c13Style{ID: ids[i]}
 			if i > 0 && rapid.IntRange(0, 2).Draw(rt, "hasparent") > 0 {
@@ -455,7 +501,6 @@ func TestC13(t *testing.T) {
 			}
 			c.Styles = append(c.Styles, st)
 		}
-		nr := rapid.IntRange(0, 3).Draw(rt, "nregions")
 		for i := 0; i < nr; i++ {
 			rg := c13Region{ID: rids[i]}
 			if c.Source == "" || c.Source == "vtt" {
@@ -470,6 +515,7 @@ func TestC13(t *testing.T) {
 		nc := rapid.SampledFrom([]int{0, 1, 1, 2, 3, 4}).Draw(rt, "ncues")
 		for i := 0; i < nc; i++ {
 			cu := c13Cue{Start: int64(i) * 2000, End: int64(i)*2000 + 1500}
+			cu.Bare = c.Source == "" && rapid.IntRange(0, 2).Draw(rt, "bare") == 0
 			if ns > 0 && rapid.IntRange(0, 2).Draw(rt, "cstyle") == 0 {
 				cu.Style = ids[rapid.IntRange(0, ns-1).Draw(rt, "cstyleid")]
 			}
@@ -518,6 +564,15 @@ func TestC13(t *testing.T) {
 			ls = append(ls, "remove-styling")
 		}
 		ls = append(ls, "source-"+c.Source)
+		if c.NilStyles != c.NilRegions {
+			ls = append(ls, "one-definition-map-nil")
+		}
+		for _, cu := range c.Cues {
+			if (cu.Bare && cu.Style == "" && cu.Region == "") || c.Source == "srt" {
+				ls = append(ls, "styling-on-runs-only")
+				break
+			}
+		}
 		nt := len(c.Cues) > 0 && (onlyIndirect || (removed && kept))
 		ev.Case(nt, fmt.Sprintf("%v", c), ls...)
 		if nt {
